@@ -1,7 +1,12 @@
+#[cfg(not(eyeball_verif))]
 use std::{
     ops::{Deref, DerefMut},
     sync::Arc,
 };
+#[cfg(eyeball_verif)]
+use std::ops::{Deref, DerefMut};
+#[cfg(eyeball_verif)]
+use verif_sync::Arc;
 
 use crate::state::ObservableState;
 
@@ -32,13 +37,28 @@ pub trait Lock {
 pub enum SyncLock {}
 
 impl Lock for SyncLock {
+    #[cfg(not(eyeball_verif))]
     type RwLock<T> = std::sync::RwLock<T>;
+    #[cfg(eyeball_verif)]
+    type RwLock<T> = verif_sync::RwLock<T>;
+    #[cfg(not(eyeball_verif))]
     type RwLockReadGuard<'a, T>
         = std::sync::RwLockReadGuard<'a, T>
     where
         T: 'a;
+    #[cfg(eyeball_verif)]
+    type RwLockReadGuard<'a, T>
+        = verif_sync::RwLockReadGuard<'a, T>
+    where
+        T: 'a;
+    #[cfg(not(eyeball_verif))]
     type RwLockWriteGuard<'a, T>
         = std::sync::RwLockWriteGuard<'a, T>
+    where
+        T: 'a;
+    #[cfg(eyeball_verif)]
+    type RwLockWriteGuard<'a, T>
+        = verif_sync::RwLockWriteGuard<'a, T>
     where
         T: 'a;
     type Shared<T> = readlock::Shared<T>;
